@@ -179,29 +179,61 @@ func (e *env) bridgeCallFailures(r *rec, thorough bool) {
 		// refundOther: the claim names a refund address that is not the receiving contract (the tokens delivered to the
 		// receiver have to be taken back from it before they go into the refund record)
 		refundOther bool
+		// plain: the call's target is a plain account (no code): nothing is called, the tokens are only delivered
+		plain bool
+		// holds: the target already holds coins of the delivered denominations before the call
+		holds bool
 	}
 	vs := []variant{
-		{"contract-ok(control)", []scen.Token{e.usdt}, "ok", -1, false, false},
-		{"revert-before-writes", []scen.Token{e.usdt}, "revert-before-writes", -1, false, false},
-		{"revert-after-writes", []scen.Token{e.usdt}, "revert-after-writes", -1, false, false},
-		{"revert-after-writes/2-tokens", []scen.Token{e.usdt, e.fx}, "revert-after-writes", -1, false, false},
-		{"token-1-of-2-disabled", []scen.Token{e.usdt, e.fx}, "ok", 0, false, false},
-		{"token-1-of-1-disabled", []scen.Token{e.usdt}, "ok", 0, false, false},
-		{"gas-exhaustion-at-every-threshold", []scen.Token{e.usdt}, "ok", -1, true, false},
+		{"contract-ok(control)", []scen.Token{e.usdt}, "ok", -1, false, false, false, false},
+		{"revert-before-writes", []scen.Token{e.usdt}, "revert-before-writes", -1, false, false, false, false},
+		{"revert-after-writes", []scen.Token{e.usdt}, "revert-after-writes", -1, false, false, false, false},
+		{"revert-after-writes/2-tokens", []scen.Token{e.usdt, e.fx}, "revert-after-writes", -1, false, false, false, false},
+		{"token-1-of-2-disabled", []scen.Token{e.usdt, e.fx}, "ok", 0, false, false, false, false},
+		{"token-1-of-1-disabled", []scen.Token{e.usdt}, "ok", 0, false, false, false, false},
+		{"gas-exhaustion-at-every-threshold", []scen.Token{e.usdt}, "ok", -1, true, false, false, false},
 	}
 	for _, v := range vs[:6] {
 		v.name += "/refund-to-third-party"
 		v.refundOther = true
 		vs = append(vs, v)
 	}
+	// deliveries to a plain account that fail at the k-th token (k = 1, 2; both token orders), the account holding / not
+	// holding coins of those denominations already, refund to itself / to a third party
+	for _, pv := range []variant{
+		{name: "plain-account/token-2-of-2-disabled(usdt,fx)", tokens: []scen.Token{e.usdt, e.fx}, mode: "ok", disable: 1, plain: true},
+		{name: "plain-account/token-2-of-2-disabled(fx,usdt)", tokens: []scen.Token{e.fx, e.usdt}, mode: "ok", disable: 1, plain: true},
+		{name: "plain-account/token-1-of-2-disabled(usdt,fx)", tokens: []scen.Token{e.usdt, e.fx}, mode: "ok", disable: 0, plain: true},
+		{name: "plain-account/token-1-of-1-disabled", tokens: []scen.Token{e.usdt}, mode: "ok", disable: 0, plain: true},
+	} {
+		for _, holds := range []bool{false, true} {
+			for _, other := range []bool{false, true} {
+				v := pv
+				v.holds, v.refundOther = holds, other
+				if holds {
+					v.name += "/target-holds-coins"
+				}
+				if other {
+					v.name += "/refund-to-third-party"
+				}
+				vs = append(vs, v)
+			}
+		}
+	}
 	if thorough {
 		// the gas sweep also with two tokens and with a third-party refund address
-		vs = append(vs, variant{"gas-exhaustion-at-every-threshold/2-tokens", []scen.Token{e.usdt, e.fx}, "ok", -1, true, false},
-			variant{"gas-exhaustion-at-every-threshold/refund-to-third-party", []scen.Token{e.usdt}, "ok", -1, true, true})
+		vs = append(vs, variant{"gas-exhaustion-at-every-threshold/2-tokens", []scen.Token{e.usdt, e.fx}, "ok", -1, true, false, false, false},
+			variant{"gas-exhaustion-at-every-threshold/refund-to-third-party", []scen.Token{e.usdt}, "ok", -1, true, true, false, false})
 	}
 	for _, v := range vs {
 		base := world.Branch(e.ctx)
 		callee := w.Deploy(base, w.A("u2"), calleeProgram(e.usdt.ERC20, w.A("u2").Hex(), v.mode).InitCode())
+		if v.plain {
+			callee = world.NewActor("plain-target").Hex()
+			if v.holds {
+				scen.Fund(w, base, callee.Bytes(), sdk.NewCoins(world.FXCoin(1))) // FX only: nobody holds usdt coins in this world
+			}
+		}
 		n := e.nonce + 1
 		var toks []string
 		var amts []sdkmath.Int
@@ -268,11 +300,11 @@ func (e *env) bridgeCallFailures(r *rec, thorough bool) {
 			}
 			pre := w.Dump(ctx)
 			calleeHold := func(c sdk.Context) string {
-				return fmt.Sprintf("usdt-erc20=%s usdt-coin=%s fx=%s", scen.BalanceOf(w, c, e.usdt.ERC20, callee), w.App.BankKeeper.GetBalance(c, callee.Bytes(), "usdt").Amount, w.App.BankKeeper.GetBalance(c, callee.Bytes(), "FX").Amount)
+				return fmt.Sprintf("usdt-erc20=%s usdt-coin=%s fx=%s fx-erc20=%s all-coins=%s", scen.BalanceOf(w, c, e.usdt.ERC20, callee), w.App.BankKeeper.GetBalance(c, callee.Bytes(), "usdt").Amount, w.App.BankKeeper.GetBalance(c, callee.Bytes(), "FX").Amount, scen.BalanceOf(w, c, e.fx.ERC20, callee), w.App.BankKeeper.GetAllBalances(c, callee.Bytes()))
 			}
 			holdPre := calleeHold(ctx)
 			refundHold := func(c sdk.Context) string {
-				return fmt.Sprintf("usdt-erc20=%s usdt-coin=%s", scen.BalanceOf(w, c, e.usdt.ERC20, refund), w.App.BankKeeper.GetBalance(c, refund.Bytes(), "usdt").Amount)
+				return fmt.Sprintf("usdt-erc20=%s usdt-coin=%s fx-erc20=%s all-coins=%s", scen.BalanceOf(w, c, e.usdt.ERC20, refund), w.App.BankKeeper.GetBalance(c, refund.Bytes(), "usdt").Amount, scen.BalanceOf(w, c, e.fx.ERC20, refund), w.App.BankKeeper.GetAllBalances(c, refund.Bytes()))
 			}
 			refundPre := refundHold(ctx)
 			u2Pre := scen.BalanceOf(w, ctx, e.usdt.ERC20, w.A("u2").Hex())
@@ -341,7 +373,7 @@ func (e *env) bridgeCallFailures(r *rec, thorough bool) {
 				if v.mode != "ok" || v.disable >= 0 {
 					r.viol("C18/harness/failure-not-provoked/"+v.name, "harness", name+" executed successfully", name)
 				}
-				if marker != 7 {
+				if marker != 7 && !v.plain {
 					r.viol("C18/successful-bridge-call-lost-contract-writes/"+v.name, "success-commits-everything", name, name)
 				}
 			}
@@ -493,7 +525,7 @@ func init() {
 	registry.Register(&registry.Check{
 		ID:          "C18",
 		Level:       "fault_enumeration",
-		Rule:        "tolerated-failure boundaries x failure points: (a) observed events whose handler fails (duplicate bridge token, FX decimals mismatch, unknown oracle set) - only the attestation, last-observed and per-oracle nonce keys may change; (b) inbound bridge call to a contract that reverts before / after its writes, with 1 or 2 tokens, with the k-th token pair disabled, and with the nested call cut at every gas threshold of the callee's trace (block max gas varied) - either the claim execution fails as a whole and nothing changes, or the refund record holds exactly the claim's tokens and no contract write, token move or account change of the failed call survives; (c) passed proposals with message shapes G, F, GF, GGF, GFG, P, GP (G good, F failing, P panicking) - proposal marked failed, deposits refunded, no effect of earlier messages. IBC packet failures are enumerated in C19. distinct_nontrivial = distinct (boundary, variant, outcome) classes",
+		Rule:        "tolerated-failure boundaries x failure points: (a) observed events whose handler fails (duplicate bridge token, FX decimals mismatch, unknown oracle set) - only the attestation, last-observed and per-oracle nonce keys may change; (b) inbound bridge call to a contract that reverts before / after its writes, with 1 or 2 tokens, with the k-th token pair disabled (also delivered to a plain account, k = 1, 2, both token orders, the account holding / not holding such coins, refund to itself / a third party), and with the nested call cut at every gas threshold of the callee's trace (block max gas varied) - either the claim execution fails as a whole and nothing changes, or the refund record holds exactly the claim's tokens and no contract write, token move or account change of the failed call survives; (c) passed proposals with message shapes G, F, GF, GGF, GFG, P, GP (G good, F failing, P panicking) - proposal marked failed, deposits refunded, no effect of earlier messages. IBC packet failures are enumerated in C19. distinct_nontrivial = distinct (boundary, variant, outcome) classes",
 		Assumptions: []string{"the callee is a hand-assembled contract (marker write, ERC-20 transfer, marker write, optional revert)", "CallEVM takes its gas limit from the block max gas, which is therefore the varied quantity"},
 		Jobs: func(tier string) []registry.Job {
 			return []registry.Job{{Name: "boundaries-x-failure-points", Custom: run(tier == "thorough"), Shards: 1}}
